@@ -14,11 +14,11 @@ JOBS = {
     "unify-plain": dict(module="MC_Unify", constants={"Slice": "plain"}, invariants=UNIFY_INV,
                         nontrivial=unify_nontrivial, timeout={"quick": 900, "thorough": 1800}),
     "unify-laws": dict(module="MC_Unify", constants={"Slice": "laws"}, invariants=UNIFY_INV,
-                       nontrivial=unify_nontrivial, timeout={"quick": 900, "thorough": 900}),
+                       nontrivial=unify_nontrivial, timeout={"quick": 900, "thorough": 3600}),
     "unify-sess": dict(module="MC_Unify", constants={"Slice": "sess"}, invariants=UNIFY_INV,
                        nontrivial=unify_nontrivial, timeout={"quick": 900, "thorough": 1800}),
     "unify-fn": dict(module="MC_Unify", constants={"Slice": "fn"}, invariants=UNIFY_INV,
-                     nontrivial=unify_nontrivial, timeout={"quick": 900, "thorough": 900}),
+                     nontrivial=unify_nontrivial, timeout={"quick": 900, "thorough": 3600}),
     "unify-arith": dict(module="MC_Unify", constants={"Slice": "arith"}, invariants=UNIFY_INV,
                         nontrivial=unify_nontrivial, timeout={"quick": 900, "thorough": 3000}),
 }
